@@ -270,10 +270,11 @@ class Flwdir(object):
         # add pits
         self.idxs_ds[idxs1] = idxs1
         self._pit = np.unique(np.concatenate([self.idxs_pit, idxs1]))
-        # reset order, nnodes and upstream cell indices
+        # reset order, nnodes and everything memoised for the previous network
         self._seq = None
         self._nnodes = None
-        self._idxs_us_main = None
+        for key in ["rank", "idxs_us_main", "strord", "distnc"]:
+            self._cached.pop(key, None)
 
     def repair_loops(self):
         """Repair loops by setting a pit at every cell which does not drain to a pit."""
